@@ -534,6 +534,8 @@ impl CoreApi for Enforcer {
 
     async fn set_model<M: TryIntoModel>(&mut self, m: M) -> Result<()> {
         self.model = m.try_into_model().await?;
+        // the new model may define role functions the engine does not know yet
+        self.register_g_functions()?;
         self.load_policy().await?;
         Ok(())
     }
